@@ -364,6 +364,48 @@ fn inflect(rep: &mut Report) {
             }
         }
     }
+    // precedence: a struct variant's own rename_all wins over the enum's rename_all_fields (serde's
+    // rule); the enum's rename_all names the variants and never their fields
+    if si == 0 {
+        for (x_name, _, x_rule) in RULES {
+            for (y_name, _, y_rule) in RULES {
+                let src = format!(
+                    "#[ts(rename_all_fields = \"{x_name}\", rename_all = \"{y_name}\")] enum E {{ #[ts(rename_all = \"{y_name}\")] OwnRule {{ multi_word_field: i32 }}, EnumRule {{ other_long_name: i32 }} }}"
+                );
+                rep.evaluations += 1;
+                let exp = [
+                    ("field", y_rule.apply_to_field("multi_word_field")),
+                    ("field", x_rule.apply_to_field("other_long_name")),
+                    ("variant", y_rule.apply_to_variant("OwnRule")),
+                    ("variant", y_rule.apply_to_variant("EnumRule")),
+                ];
+                match derive_src(&src) {
+                    Obs::Ok(tokens) => {
+                        for (pos, name) in exp {
+                            let shown = if pos == "field" { crate::utils::raw_name_to_ts_field(name.clone()) } else { name.clone() };
+                            let lit = proc_macro2::Literal::string(&shown).to_string();
+                            if !tokens.contains(&lit) {
+                                rep.violation(
+                                    jobj(&[
+                                        ("check", jstr("rename-precedence-differs-from-serde")),
+                                        ("rule", jstr(&format!("fields:{x_name}/variant:{y_name}"))),
+                                        ("position", jstr(pos)),
+                                        ("conventional_identifier", "true".into()),
+                                    ]),
+                                    jobj(&[("src", jstr(&src)), ("expected_name", jstr(&name))]),
+                                );
+                            }
+                        }
+                        rep.count("precedence_cases", 1);
+                    }
+                    other => rep.violation(
+                        jobj(&[("check", jstr("derive-fails")), ("rule", jstr(x_name))]),
+                        jobj(&[("src", jstr(&src)), ("obs", jstr(&format!("{other:?}").chars().take(300).collect::<String>()))]),
+                    ),
+                }
+            }
+        }
+    }
     // end-to-end: the name really lands in the expansion (one derive per rule for a few identifiers)
     if si == 0 {
         for ident_s in ["foo_bar", "fooBar", "Foo_Bar", "a1_b", "r#type", "_x", "x_"] {
